@@ -22,6 +22,7 @@ import (
 	"github.com/emersion/go-imap/v2/imapclient"
 	"github.com/emersion/go-imap/v2/verif/internal/hx"
 	"github.com/emersion/go-imap/v2/verif/internal/kit"
+	"github.com/emersion/go-imap/v2/verif/internal/vconn"
 	"github.com/emersion/go-sasl"
 )
 
@@ -260,5 +261,97 @@ func osClientDialStartTLS(w *hx.W) {
 	if !controlOK {
 		w.Notef("os transports: no control DialStartTLS succeeded; the PREAUTH refusals above prove nothing on this machine")
 		w.Metric("os_dialstarttls_control_failed", 1)
+	}
+}
+
+// prefixConn sends a plaintext prefix in the same Write as the first bytes of its user (the TLS
+// client's ClientHello) and strips the plaintext answer line in front of the first bytes it reads.
+type prefixConn struct {
+	net.Conn
+	br       *bufio.Reader
+	prefix   []byte
+	sent     bool
+	stripped bool
+	answer   string
+}
+
+func (p *prefixConn) Write(b []byte) (int, error) {
+	if !p.sent {
+		p.sent = true
+		if _, err := p.Conn.Write(append(append([]byte(nil), p.prefix...), b...)); err != nil {
+			return 0, err
+		}
+		return len(b), nil
+	}
+	return p.Conn.Write(b)
+}
+
+func (p *prefixConn) Read(b []byte) (int, error) {
+	if !p.stripped {
+		line, err := p.br.ReadString('\n')
+		p.answer = line
+		if err != nil {
+			return 0, err
+		}
+		p.stripped = true
+		if !strings.HasPrefix(line, "a OK") {
+			return 0, fmt.Errorf("STARTTLS answered %q", line)
+		}
+	}
+	return p.br.Read(b)
+}
+
+// pipelinedClientHello: the bytes behind the STARTTLS line belong to the TLS handshake. A client
+// that sends its ClientHello in the same segment as the STARTTLS line must get a working TLS
+// session: the server has to hand what it had buffered to the handshake, not drop it.
+func pipelinedClientHello(w *hx.W) {
+	for _, insecure := range []bool{false, true} {
+		cfg := fmt.Sprintf("insecure=%v", insecure)
+		srv := kit.NewServer(kit.ServerCfg{Caps: imap.CapSet{imap.CapIMAP4rev1: {}}, InsecureAuth: insecure, TLS: true, Kind: kit.SessFull})
+		log := &vconn.Log{}
+		c, sv := vconn.Pipe("client", "server", log)
+		srv.Ln.Inject(sv)
+		br := bufio.NewReader(c)
+		br.ReadString('\n') // greeting
+		pc := &prefixConn{Conn: c, br: br, prefix: []byte("a STARTTLS\r\n")}
+		tc := tls.Client(pc, kit.ClientTLSConfig())
+		res := make(chan string, 1)
+		go func() {
+			if err := tc.Handshake(); err != nil {
+				res <- "handshake: " + err.Error() + " (STARTTLS answer " + fmt.Sprintf("%q", pc.answer) + ")"
+				return
+			}
+			tc.Write([]byte("c1 CAPABILITY\r\n"))
+			tbr := bufio.NewReader(tc)
+			var out string
+			for {
+				line, err := tbr.ReadString('\n')
+				out += line
+				if err != nil {
+					res <- "inside TLS: " + err.Error() + " after " + fmt.Sprintf("%q", out)
+					return
+				}
+				if strings.HasPrefix(line, "c1 ") {
+					break
+				}
+			}
+			if !strings.Contains(out, "c1 OK") || !strings.Contains(out, "AUTH=") {
+				res <- fmt.Sprintf("CAPABILITY inside TLS answered %q", out)
+				return
+			}
+			res <- ""
+		}()
+		select {
+		case msg := <-res:
+			if msg != "" {
+				w.Violation("server-pipelined-clienthello-lost/"+cfg, fmt.Sprintf("STARTTLS line and ClientHello sent in one segment [%s]: %s; the bytes behind the STARTTLS line were not handed to the TLS handshake", cfg, msg), nil)
+			}
+		case <-time.After(60 * time.Second):
+			w.Violation("server-pipelined-clienthello-lost/"+cfg, fmt.Sprintf("STARTTLS line and ClientHello sent in one segment [%s]: no TLS session after 60 s; the bytes behind the STARTTLS line were not handed to the TLS handshake\n%s", cfg, hx.Goroutines("imapserver")), nil)
+		}
+		c.Close()
+		srv.Close()
+		w.Enumerated(1)
+		w.Class("server/pipelined-clienthello/" + cfg)
 	}
 }
